@@ -309,12 +309,42 @@ func c09Alphabet(thorough bool) []string {
 func c09Unit(unit string, env *fw.Env) *fw.Result {
 	res := fw.NewResult()
 	alpha := c09Alphabet(env.Thorough)
-	depth, maxCtl := 3, 1
+	depth, maxCtl := 3, 2
 	if env.Thorough {
 		depth, maxCtl = 4, 2
 	}
 	var first int
 	var mode int
+	if strings.HasPrefix(unit, "ctl/") {
+		// every sequence of <=6 (7) symbols over {small append, small batch, rotate, reopen}: empty files in the middle,
+		// rotations in a row, reopen of an empty file, ...
+		fmt.Sscanf(unit, "ctl/%d", &mode)
+		small := []string{"a:small", "b:b3", "rotate", "reopen"}
+		d := 6
+		if env.Thorough {
+			d = 7
+		}
+		var rec func(prog walProg)
+		rec = func(prog walProg) {
+			if env.Expired() {
+				res.Exhaustive = false
+				return
+			}
+			if len(prog) > 0 {
+				c09CheckProg(prog, config.SyncMode(mode), res, unit, env.Thorough)
+				res.States++
+			}
+			if len(prog) == d {
+				return
+			}
+			for _, s := range small {
+				rec(append(prog[:len(prog):len(prog)], s))
+			}
+		}
+		rec(nil)
+		res.Traces = res.Evaluations
+		return res
+	}
 	fmt.Sscanf(unit, "prog/%d/%d", &first, &mode)
 	var rec func(prog walProg, ctl int)
 	rec = func(prog walProg, ctl int) {
@@ -355,7 +385,7 @@ func init() {
 	fw.Register(&fw.Check{
 		ID:    "C09",
 		Level: "model_checking",
-		Rule: "all programs up to depth 3 (4 thorough) over the alphabet {append of 14 (21) key/value shapes on the record-format boundaries (payload 32767/32768/32769, 2 fragments+1, data behind the first fragment exactly 1x / 2x the fragment size for puts and a delete, key longer than the first fragment, fragmented delete, empty value), 7 (10) batches incl. totals 64KiB-1/64KiB/64KiB+1, an entry that fills a record exactly and entries too large by one byte / by far behind a small first entry (rejected: nothing of the batch may be in the log), rotate, reopen} with <=1 (2) rotate/reopen, under sync modes immediate and none; oracle: ReplayWALDir == appended list (type,key,value,seq) and GetEntriesFrom(s) for every s in [0,max+2]; non-trivial = programs with >=2 symbols",
+		Rule: "all programs up to depth 3 (4 thorough) over the alphabet {append of 14 (21) key/value shapes on the record-format boundaries (payload 32767/32768/32769, 2 fragments+1, data behind the first fragment exactly 1x / 2x the fragment size for puts and a delete, key longer than the first fragment, fragmented delete, empty value), 7 (10) batches incl. totals 64KiB-1/64KiB/64KiB+1, an entry that fills a record exactly and entries too large by one byte / by far behind a small first entry (rejected: nothing of the batch may be in the log), rotate, reopen} with <=2 rotate/reopen, plus every sequence of <=6 (7) symbols over {small append, 3-entry batch, rotate, reopen} (rotations in a row, empty files in the middle), under sync modes immediate and none; oracle: ReplayWALDir == appended list (type,key,value,seq) and GetEntriesFrom(s) for every s in [0,max+2]; non-trivial = programs with >=2 symbols",
 		Assumptions: []string{"sequence hand-over at rotation is done by the harness as the engine is supposed to do it (UpdateNextSequence)", "file names come from the real clock; two files created in the same nanosecond are not modelled"},
 		Units: func(tier string) []string {
 			var us []string
@@ -364,6 +394,7 @@ func init() {
 				us = append(us, fmt.Sprintf("prog/%d/%d", i, int(config.SyncImmediate)))
 				us = append(us, fmt.Sprintf("prog/%d/%d", i, int(config.SyncNone)))
 			}
+			us = append(us, fmt.Sprintf("ctl/%d", int(config.SyncImmediate)), fmt.Sprintf("ctl/%d", int(config.SyncNone)))
 			return us
 		},
 		Run:    c09Unit,
